@@ -587,4 +587,235 @@ def modesDomain (rs : List Rec) : Bool :=
   positionSorted rs && distinctOpts (tagRuns rs) &&
   (runsOf rs).all fun run => chainShape (run.map (·.type))
 
+/-! ### exports of a collection built on a SEQUENCE CHUNK
+
+  `seq_chunk_to_parent(letters, name, w.1, w.2, wst)`: the collection carries chromosome coordinates, its sequence is
+  the window `[w.1, w.2)` of the chromosome (reverse-complemented when the chunk lies on the minus strand).  The
+  export describes THE CHUNK: the sequence of the file is the chunk's; every gene / transcript / CDS / feature record
+  carries the part of the source inside the chunk, in chunk coordinates, on the strand the source has on the chunk; an
+  independent reader of a CDS record (written location + written `/codon_start`) reads exactly the codons of the
+  source's FULL reading frame that lie entirely inside the chunk, and a requested `/translation` is their translation.
+  A location without any base in the chunk cannot be written (`EmptyLocationException`, documented): a refusal is
+  accepted exactly then. -/
+
+/-- the chunk: window `[w.1, w.2)` of the chromosome, seen on strand `wst` -/
+structure Chunk where
+  w : Blk
+  wst : Strand
+  deriving DecidableEq, Repr, Inhabited
+
+/-- the chunk holds at least one base and has a direction -/
+def Chunk.ok (k : Chunk) : Bool := decide (k.w.1 < k.w.2) && k.wst.isDirectional
+
+def inChunk (k : Chunk) (p : Nat) : Bool := decide (k.w.1 ≤ p) && decide (p < k.w.2)
+
+/-- part of block `b` inside window `w` (none when they share no position) -/
+def clipTo (w b : Blk) : Option Blk :=
+  if max w.1 b.1 < min w.2 b.2 then some (max w.1 b.1, min w.2 b.2) else none
+
+/-- a chromosome block lying inside the window, in chunk coordinates (mirrored on a minus-strand chunk) -/
+def relBlk (k : Chunk) (b : Blk) : Blk :=
+  if k.wst == .minus then (k.w.2 - b.2, k.w.2 - b.1) else (b.1 - k.w.1, b.2 - k.w.1)
+
+/-- the in-chunk parts of a block list in chunk coordinates, ascending on the chunk -/
+def chunkBlocks (k : Chunk) (bs : List Blk) : List Blk :=
+  let cl := (bs.filterMap (clipTo k.w)).map (relBlk k)
+  if k.wst == .minus then cl.reverse else cl
+
+/-- the in-chunk part of a span, in chunk coordinates -/
+def chunkSpan (k : Chunk) (sp : Blk) : Option Blk := (clipTo k.w sp).map (relBlk k)
+
+/-- strand of a source of chromosome strand `st` on the chunk -/
+def chunkStrand (k : Chunk) (st : Strand) : Strand :=
+  if k.wst == .minus then (match st with | .plus => .minus | .minus => .plus | .unstranded => .unstranded) else st
+
+/-- a chunk position lifted back to the chromosome -/
+def unchunkPos (k : Chunk) (i : Nat) : Nat := if k.wst == .minus then k.w.2 - 1 - i else k.w.1 + i
+
+/-- the chunk's letters, given the chromosome's -/
+def chunkSeq (k : Chunk) (chrom : Str) : Option Str :=
+  if k.wst == .minus then revComp (sliceOf chrom k.w) else some (sliceOf chrom k.w)
+
+def cdsLoc (t : Tx) : Loc := ⟨t.cds, t.strand⟩
+
+/-- number of CDS bases (read 5'→3') that lie 5' of the first in-chunk CDS base -/
+def upstreamBases (k : Chunk) (t : Tx) : Nat := ((bases (cdsLoc t)).takeWhile fun p => !inChunk k p).length
+
+/-- bases to skip in the in-chunk CDS to reach the first base that begins a codon of the FULL reading frame: with `i`
+    CDS bases 5' of the chunk and start frame `f0`, the reading frame begins at CDS base `f0`; the in-chunk base number
+    `j` (counted in the whole CDS) begins a codon iff `j ≥ f0` and `3 ∣ j − f0` -/
+def chunkStartFrame (k : Chunk) (t : Tx) : Nat :=
+  let i := upstreamBases k t
+  let f0 := startFrameNat t
+  if i < f0 then f0 - i else (3 - (i - f0) % 3) % 3
+
+def natFrame : Nat → CDSFrame
+  | 0 => .ZERO | 1 => .ONE | _ => .TWO
+
+/-- frames (5'→3') of one reading frame over blocks listed 5'→3': the 5'-most block carries the number of skipped bases,
+    every later block the codon position of its first base = retained bases so far mod 3 -/
+def framesWalk : List Blk → Nat → Nat → List Nat
+  | [], _, _ => []
+  | b :: rest, f, 0 => f :: framesWalk rest f (b.len + 1)
+  | b :: rest, f, (seen + 1) => ((seen - f) % 3) :: framesWalk rest f (seen + b.len + 1)
+
+/-- per-block frames (in the order of the ascending blocks) of ONE reading frame with `f` skipped bases -/
+def framesFromStart (st : Strand) (cds : List Blk) (f : Nat) : List CDSFrame :=
+  match st with
+  | .minus => ((framesWalk cds.reverse f 0).map natFrame).reverse
+  | _ => (framesWalk cds f 0).map natFrame
+
+/-- the transcript as the chunk shows it -/
+def chunkTx (k : Chunk) (t : Tx) : Tx :=
+  let st := chunkStrand k t.strand
+  let cds := chunkBlocks k t.cds
+  { t with strand := st, exons := chunkBlocks k t.exons, cds := cds,
+           frames := framesFromStart st cds (chunkStartFrame k t) }
+
+def chunkGene (k : Chunk) (g : Gene) : Gene := { g with txs := g.txs.map (chunkTx k) }
+
+def chunkFeat (k : Chunk) (x : FeatI) : FeatI :=
+  { x with strand := chunkStrand k x.strand, blocks := chunkBlocks k x.blocks }
+
+def chunkFColl (k : Chunk) (f : FColl) : FColl := { f with feats := f.feats.map (chunkFeat k) }
+
+def chunkItem (k : Chunk) : Item → Item
+  | .gene g => .gene (chunkGene k g)
+  | .fcoll f => .fcoll (chunkFColl k f)
+
+/-- the collection as the chunk shows it (chunk coordinates, the chunk's letters) -/
+def chunkColl (k : Chunk) (c : Coll) : Coll := ⟨c.seq.bind (chunkSeq k), c.items.map (chunkItem k)⟩
+
+/-- something that has to be written has no base in the chunk -/
+def geneMayRefuse (k : Chunk) (g : Gene) : Bool :=
+  (match geneSpan g with | some sp => (chunkSpan k sp).isNone | none => true) ||
+  g.txs.any fun t => (chunkBlocks k t.exons).isEmpty || (t.writesCds && (chunkBlocks k t.cds).isEmpty)
+
+def fcMayRefuse (k : Chunk) (f : FColl) : Bool :=
+  (match fcSpan f with | some sp => (chunkSpan k sp).isNone | none => true) ||
+  f.feats.any fun x => (chunkBlocks k x.blocks).isEmpty
+
+def mayRefuse (k : Chunk) (c : Coll) : Bool :=
+  c.items.any fun | .gene g => geneMayRefuse k g | .fcoll f => fcMayRefuse k f
+
+/-- STRUCTURAL clauses of one gene on a chunk: the `gene` record carries the in-chunk part of the gene's span, every
+    transcript-level / CDS record the in-chunk blocks, all in chunk coordinates on the chunk's view of the strand -/
+def geneStructClausesK (fl : Flavor) (ans : List Rec) (k : Chunk) (g : Gene) : List String :=
+  match g.txs.head?, (geneSpan g).bind (chunkSpan k) with
+  | some t0, some sp =>
+    need ans "gene" sGene (chunkStrand k t0.strand) [sp]
+      [(kGene, geneSymbolWritten g), (kLocusTag, geneTagWritten g), (kGeneId, set? g.geneId)] ++
+    g.txs.flatMap fun t =>
+      (if txFeatureType t == sMRNA && fl == .prokaryotic then []
+       else need ans "transcript" (txFeatureType t) (chunkStrand k t.strand) (chunkBlocks k t.exons) (txIds g t)) ++
+      (if t.writesCds then need ans "cds" sCDS (chunkStrand k t.strand) (chunkBlocks k t.cds) (cdsIds g t) else [])
+  | _, _ => ["gene.empty"]
+
+def fcClausesK (ans : List Rec) (k : Chunk) (f : FColl) : List String :=
+  match f.feats.head?, (fcSpan f).bind (chunkSpan k) with
+  | some x0, some sp =>
+    need ans "fcoll" sMiscFeature (chunkStrand k x0.strand) [sp]
+      [(kFcId, set? f.id), (kFcName, set? f.name), (kLocusTag, fcTagWritten f)] ++
+    f.feats.flatMap fun x =>
+      need ans "feature" sFeatInterval (chunkStrand k x.strand) (chunkBlocks k x.blocks)
+        [(kFeatId, set? x.featId), (kFeatName, set? x.featName)]
+  | _, _ => ["fcoll.empty"]
+
+/-- the CDS records that stand for transcript `t` on the chunk -/
+def cdsHitsK (ans : List Rec) (k : Chunk) (g : Gene) (t : Tx) : List Rec :=
+  ans.filter fun r => r.type == sCDS && r.strand == chunkStrand k t.strand &&
+    sameBlocks r.parts (chunkBlocks k t.cds) && idsOk r.quals (cdsIds g t)
+
+/-- the chromosome positions an independent reader of the record reads, in reading order: the parts as listed, each
+    descending on the minus strand, lifted back from the chunk -/
+def readerPositions (k : Chunk) (r : Rec) : List Nat :=
+  (match r.strand with
+   | .minus => r.parts.flatMap blkDesc
+   | _ => r.parts.flatMap blkAsc).map (unchunkPos k)
+
+def readerCodonPositions (k : Chunk) (r : Rec) : Option (List (List Nat)) :=
+  (readerFrame r).map fun f => Spec.triples ((readerPositions k r).drop f)
+
+/-- the codons of the source's FULL reading frame (walked on the chromosome) that lie entirely inside the chunk -/
+def innerCodons (k : Chunk) (t : Tx) : List (List Nat) :=
+  (Spec.cdsCodons (cdsLoc t) (t.frames.map frameNat)).filter fun cod => cod.all (inChunk k)
+
+/-- the per-block frames of the in-chunk CDS can carry the start frame (as `Tx.frameFits`) -/
+def chunkFits (k : Chunk) (t : Tx) : Bool := (chunkTx k t).frameFits
+
+/-- the letters of the inner codons, read on the CHROMOSOME -/
+def innerLetters (chrom : Str) (k : Chunk) (t : Tx) : Option (List (List Char)) :=
+  (innerCodons k t).mapM fun cod => (Spec.lettersAt chrom t.strand cod).map fun l => l.map Spec.upper
+
+/-- READER clauses of one CDS record on a chunk (source read in one frame): `/codon_start` is the number of in-chunk
+    bases before the first codon of the full reading frame; location + `/codon_start` make the reader read exactly the
+    inner codons; a requested `/translation` is the reader's translation, which is the translation of the inner codons -/
+def cdsReaderClausesK (fl : Flavor) (trans : Bool) (chrom : Option Str) (k : Chunk) (t : Tx) (r : Rec) : List String :=
+  let cls := cdsClass (chunkTx k t)
+  if !t.oneFrame then [] else
+  (if readerFrame r == some (chunkStartFrame k t) then [] else [s!"codon_start{cls}"]) ++
+  (if readerCodonPositions k r == some (innerCodons k t) then [] else [s!"reader_codons{cls}"]) ++
+  (match trans, chrom with
+   | true, some s =>
+     if !chunkFits k t || t.quals.any (·.1 == kTranslation) then []
+     else
+       (match chunkSeq k s with
+        | some ks => if okTranslationOf fl ks r then [] else [s!"translation{cls}"]
+        | none => ["chunk-sequence"]) ++
+       (match innerLetters s k t, qualGet kTranslation r.quals with
+        | some cods, v :: _ =>
+          if Spec.okTranslateCodons cods false (tableOf fl) true (some v) then [] else [s!"translation.reference{cls}"]
+        | _, _ => [])
+   | _, _ => [])
+
+def geneReaderClausesK (fl : Flavor) (trans : Bool) (chrom : Option Str) (ans : List Rec) (k : Chunk) (g : Gene) :
+    List String :=
+  g.txs.flatMap fun t =>
+    if t.writesCds then
+      match cdsHitsK ans k g t with
+      | r :: rest =>
+        if (r :: rest).any (fun x => (cdsReaderClausesK fl trans chrom k t x).isEmpty) then []
+        else cdsReaderClausesK fl trans chrom k t r
+      | [] => []
+    else []
+
+/-- known deviation class of the pinned library (label only): a written CDS has bases in the chunk but none of them is
+    retained by the reading frame — the requested translation raises instead of being empty (C07's F-C07b) -/
+def cdsWithoutRetainedBase (k : Chunk) (t : Tx) : Bool :=
+  t.writesCds && (bases (cdsLoc t)).any (inChunk k) &&
+  !((Spec.cdsKept (cdsLoc t) (t.frames.map frameNat)).any (inChunk k))
+
+def raisedClass (trans : Bool) (k : Chunk) (c : Coll) : String :=
+  if trans && (genesOf c).any (fun g => g.txs.any (cdsWithoutRetainedBase k)) then
+    "[chunk-cds-without-retained-base]" else ""
+
+/-- violated clauses of (a) for the feature list written from a collection built on chunk `k` -/
+def writeViolationsK (fl : Flavor) (trans : Bool) (k : Chunk) (c : Coll) (ans : Option (List Rec)) : List String :=
+  match ans with
+  | none => if mayRefuse k c then [] else [s!"raised{raisedClass trans k c}"]
+  | some rs =>
+    (c.items.flatMap fun
+      | .gene g => geneStructClausesK fl rs k g ++ geneReaderClausesK fl trans c.seq rs k g
+      | .fcoll f => fcClausesK rs k f) ++
+    (if rs.length == expectedCount fl c then [] else ["count"])
+
+def okWriteK (fl : Flavor) (trans : Bool) (k : Chunk) (c : Coll) (ans : Option (List Rec)) : Bool :=
+  (writeViolationsK fl trans k c ans).isEmpty
+
+/-- domain of the chunk clauses: a real chunk, inside the chromosome when there is one, a single-strand collection -/
+def chunkDomain (k : Chunk) (c : Coll) : Bool :=
+  k.ok && writeDomain c && (match c.seq with | some s => decide (k.w.2 ≤ s.length) | none => true)
+
+/-- every coding transcript is read in one frame (the chunk start frame is defined through the full reading frame) -/
+def oneFrameColl (c : Coll) : Bool := (genesOf c).all fun g => g.txs.all fun t => !t.coding || t.oneFrame
+
+/-- clause (b) on a chunk: the gene models read back are the gene models of the chunk view -/
+def rtViolationsK (fl : Flavor) (k : Chunk) (c : Coll) (ans : Option (List PGene)) : List String :=
+  match ans with
+  | none => if mayRefuse k c then [] else ["raised"]
+  | some _ => rtViolations fl (chunkColl k c) ans
+
+def rtDomainK (fl : Flavor) (m : Mode) (k : Chunk) (c : Coll) : Bool :=
+  chunkDomain k c && oneFrameColl c && (mayRefuse k c || rtDomain fl m (chunkColl k c))
+
 end BioCantor.Spec.Gb
